@@ -309,7 +309,7 @@ static bool is_subsequence_annos(const std::vector<oracle::RAnno> &got, const MS
     return true;
 }
 
-static void check_image_dump(const Plan &P, const Model &Msub, const Dump &d, Violations &v, std::map<int, int64_t> &lens) {
+static void check_image_dump(const Plan &P, const Model &Msub, const Dump &d, Violations &v, std::map<int, int64_t> &lens, bool errors_ok = false) {
     const std::string prop = "C03";
     // pass 1: reported lengths
     Model T = Msub;
@@ -317,7 +317,7 @@ static void check_image_dump(const Plan &P, const Model &Msub, const Dump &d, Vi
         const Op &o = P.reads[i]; const CallRec &c = d.calls[i];
         if (o.kind != RD_LEN) continue;
         auto it = T.signals.find(o.sig);
-        if (c.rc != 0) { if (it != T.signals.end()) T.signals.erase(it); continue; }
+        if (c.rc != 0) continue;      // length unknown: successful reads are still compared with what was submitted
         int64_t n; memcpy(&n, c.out.data(), 8);
         if (it == T.signals.end() || it->second.sigtype != 0) { add_violation(v, prop, "exposes_unwritten_signal", fmt("length %lld reported for signal %d that was not defined at the crash point", (long long) n, o.sig), (int) i); continue; }
         MSignal &s = it->second;
@@ -339,6 +339,7 @@ static void check_image_dump(const Plan &P, const Model &Msub, const Dump &d, Vi
             case RD_FSR: case RD_FSR_F32: case RD_STATS: {
                 auto it = T.signals.find(o.sig);
                 if (it == T.signals.end()) { if (c.rc == 0 && o.n > 0) add_violation(v, prop, "exposes_unwritten_signal", fmt("read of signal %d succeeded although the signal is not readable/defined", o.sig), (int) i); break; }
+                if (c.rc != 0 && (errors_ok || !lens.count(o.sig))) break;     // an error is an acceptable answer here
                 size_t before = v.size();
                 oracle::check_call(prop, T, o, c, (int) i, v);
                 for (size_t k = before; k < v.size(); ++k) v[k].cls = "prefix_" + v[k].cls;
@@ -507,7 +508,7 @@ static RunOutcome check_crash(const std::string &prop, const Plan &P, int tier) 
                 SFile *cf = simfs::get(PATH_C);
                 std::vector<uint8_t> after1 = cf->bytes;
                 if (d1.repaired) {
-                    specdec::Decoded dd; specdec::decode(after1, dd, true);
+                    specdec::Decoded dd; dd.repaired_mode = true; specdec::decode(after1, dd, true);
                     for (auto &e : dd.errors) { size_t bar = e.find('|'); add_violation(lv, "C19", "repaired_format_" + e.substr(0, bar), where + ": repaired file: " + e.substr(bar + 1)); }
                     lo.ctr["repaired_files_decoded"]++;
                 }
@@ -526,12 +527,13 @@ static RunOutcome check_crash(const std::string &prop, const Plan &P, int tier) 
                 add_violation(lv, "C03", "boundary_open_failed", where + fmt(": jls_rd_open returned %d although the stop is between two writes and every definition is on disk (writer was in op %d %s)", d1.open_rc, cur_op, cur_op >= 0 && cur_op < (int) P.ops.size() ? op_names[P.ops[cur_op].kind] : "-"));
             }
             });
-            for (auto &v : iso.v) if (all.size() < 64) all.push_back(v);
+            { std::map<std::string, int> per; for (auto &x : all) per[x.prop + x.cls]++; for (auto &v : iso.v) if (all.size() < 200 && per[v.prop + v.cls]++ < 3) all.push_back(v); }
             for (auto &kv : iso.o.ctr) out.ctr[kv.first] += kv.second;
             out.nontrivial_units += iso.o.nontrivial_units; for (uint64_t u : iso.o.unit_hashes) out.unit_hashes.push_back(u);
             if (iso.died) {
                 std::string where0 = fmt("stop after %zu of %zu backend writes%s", k, mut.size(), b ? fmt(" + %zu bytes of the next", b).c_str() : "");
-                if (all.size() < 64) all.push_back(Violation{"C03", iso.death_cls, where0 + ": opening/reading the image killed the process: " + iso.death_detail, -1});
+                int same = 0; for (auto &x : all) if (x.cls == iso.death_cls) ++same;
+                if (all.size() < 200 && same < 3) all.push_back(Violation{"C03", iso.death_cls, where0 + ": opening/reading the image killed the process: " + iso.death_detail, -1});
                 out.ctr["images_killed_process"]++;
             }
             simfs::remove("/sim/crash.jls");
@@ -544,7 +546,7 @@ static RunOutcome check_crash(const std::string &prop, const Plan &P, int tier) 
         out.ctr["crash_programs"]++; out.ctr["backend_writes"] += mut.size();
         out.nontrivial = out.nontrivial_units > 0;
     }
-    for (auto &v : all) if (v.prop == prop && out.viol.size() < 8) out.viol.push_back(v);
+    { std::map<std::string, int> per; for (auto &v : all) if (v.prop == prop && out.viol.size() < 12 && per[v.cls]++ < 2) out.viol.push_back(v); }
     if (out.evaluations == 0) out.evaluations = 1;
     finish_outcome(out);
     sim::cleanup();
@@ -665,13 +667,13 @@ static RunOutcome check_corrupt(const std::string &prop, const Plan &P, int tier
                 lo.unit_hashes.push_back(fnv_u64(fnv1a(atext.data(), atext.size()), fhash)); ++lo.nontrivial_units;
                 lo.ctr[d.open_rc ? "altered_open_error" : d.repaired ? "altered_open_repaired" : "altered_open_ok"]++;
                 if (d.open_rc == 0) {
-                    if (d.repaired) { std::map<int, int64_t> lens; check_image_dump(P, A.m, d, lv, lens); for (size_t q = vb; q < lv.size(); ++q) { lv[q].prop = prop; lv[q].cls = "repaired_" + lv[q].cls; } }
+                    if (d.repaired) { std::map<int, int64_t> lens; check_image_dump(P, A.m, d, lv, lens, true); for (size_t q = vb; q < lv.size(); ++q) { lv[q].prop = prop; lv[q].cls = "repaired_" + lv[q].cls; } }
                     else {
                         uint64_t n_err = 0, n_same = 0;
                         for (size_t q = 0; q < d.calls.size(); ++q) {
                             const CallRec &c = d.calls[q], &c0 = D0.calls[q];
                             if (c.skipped) continue;
-                            if (c.rc != 0) { ++n_err; continue; }
+                            if (c.rc != 0) { ++n_err; if (only_pad && c0.rc == 0) { add_violation(lv, prop, "pad_flip_changes_output", fmt("alteration %s (pad bytes only): call %zu (%s) failed with %d, pristine rc 0", atext.c_str(), q, P.reads[q].to_text().c_str(), c.rc), (int) q); break; } continue; }
                             if (c0.rc == 0 && c.out == c0.out) { ++n_same; continue; }
                             // callbacks deliver items before an error is detected: a shorter in-order delivery with rc != 0 was handled above; rc == 0 must be complete and equal
                             add_violation(lv, prop, only_pad ? "pad_flip_changes_output" : "altered_content_returned",
@@ -679,7 +681,7 @@ static RunOutcome check_corrupt(const std::string &prop, const Plan &P, int tier
                             break;
                         }
                         lo.ctr["altered_calls_error"] += n_err; lo.ctr["altered_calls_same"] += n_same;
-                        if (only_pad && n_err) add_violation(lv, prop, "pad_flip_changes_output", fmt("alteration %s (pad bytes only): %llu calls failed", atext.c_str(), (unsigned long long) n_err));
+
                     }
                 } else if (only_pad) add_violation(lv, prop, "pad_flip_changes_output", fmt("alteration %s (pad bytes only): open failed with %d", atext.c_str(), d.open_rc));
                 for (size_t q = vb; q < lv.size(); ++q) { lv[q].f_alter = atext; if (lv[q].detail.find("alteration") != 0) lv[q].detail = "alteration " + atext + ": " + lv[q].detail; }
@@ -825,7 +827,8 @@ static RunOutcome check_twr(const std::string &prop, const Plan &P) {
         if (!clock_jumped) for (size_t i = 0; i < P.ops.size(); ++i) {
             const Op &o = P.ops[i]; const OpRec &r = wr.rec[i];
             if (!r.done) continue;
-            int64_t el = r.t_return - r.t_invoke - r.stall_ns;
+            int64_t el = r.t_return - r.t_invoke;
+            for (auto &ev : sim::events()) if (ev.kind == EV_FAULT && ev.sub == F_STALL) { int64_t s0 = std::max(ev.t, r.t_invoke), s1 = std::min(ev.t + ev.b, r.t_return); if (s1 > s0) el -= (s1 - s0); }
             int64_t bound = is_msg_kind(o.kind) ? 5050000000LL : o.kind == OP_FLUSH ? 25100000000LL : -1;
             if (P.faults.latency == 3) bound = bound < 0 ? -1 : bound + 5000000000LL;   // the caller's own lock/signal can sit behind one pathological I/O of the writer thread
             if (bound > 0 && el > bound) add_violation(all, "C07", "call_exceeds_documented_timeout", fmt("op %zu '%s' took %.3f s of virtual time (bound %.2f s), rc=%d", i, o.to_text().c_str(), el / 1e9, bound / 1e9, r.rc), (int) i);
